@@ -24,6 +24,7 @@ class State(object):
         s.cells = dict(self.cells)
         s.pc = list(self.pc)
         s.written = dict(self.written)
+        if hasattr(self, 'inv_seen'): s.inv_seen = set(self.inv_seen)
         return s
     @property
     def env(self): return self.frames[-1]
@@ -46,8 +47,23 @@ class NS(object):
         if name in self._extra: return self._extra[name]
         if name not in self._frame:
             raise AttributeError('contract refers to unknown variable %r (have %s)' % (name, sorted(self._frame)))
+        d = self._ex.deref(self._frame[name], self._st)
+        if isinstance(d, PyList) and name in self._ex.loop_list_types:
+            ty = self._ex.loop_list_types[name]
+            if not d.items: return z3.Empty(z3.SeqSort(ty.sort()))
+            zs = [z3.Unit(self._ex.elem_term(i, ty, self._st)) for i in d.items]
+            return zs[0] if len(zs) == 1 else z3.Concat(*zs)
         return self._ex.term_of(self._frame[name], self._st)
     def has(self, name): return name in self._frame or name in self._extra
+    def field(self, name, fld):
+        """term of a field of a record-valued variable (callables become Fn terms)"""
+        rec = self._ex.deref(self._frame[name], self._st)
+        v = rec.fields[fld]
+        d = self._ex.deref(v, self._st)
+        if isinstance(d, (Closure, BoundMethod, FuncV, Rec)): return self._ex.as_fn(v, self._st)
+        return self._ex.term_of(v, self._st)
+    def has_field(self, name, fld):
+        return fld in self._ex.deref(self._frame[name], self._st).fields
     def val(self, name): return self._frame[name]
 
 
@@ -72,7 +88,7 @@ class Exec(object):
         if n: name = '%s@%d' % (name, n)
         o = Obligation(name, list(state.pc) + list(self.axioms) + list(extra_h), goal, kind=kind.split('/')[0],
                        function=self.fname, where='%s:%d-%d' % (self.fi.file, self.fi.lines[0], self.fi.lines[1]),
-                       carries_property=carries)
+                       carries_property=carries, unfold_depth=self.contract.unfold_depth)
         self.obls.append(o)
         return o
 
@@ -113,28 +129,49 @@ class Exec(object):
 
     def as_fn(self, v, st):
         """value usable as a callable of one real argument -> z3 Fn term"""
+        ref = v
         v = self.deref(v, st)
         if isinstance(v, FnV): return v.z
+        if isinstance(v, Obj):
+            raise Unsupported('callable object %r used as a function: give it an Fn-typed field or a contract' % (v,))
+        if isinstance(v, Rec):
+            key = ('recfn', ref.id, tuple(sorted((k, id(x)) for k, x in v.fields.items())))
+            if key in self._fn_cache: return self._fn_cache[key]
+            v = BoundMethod(ref, '__call__')
+            rec = self.deref(ref, st)
+        else:
+            rec = None; key = None
         if isinstance(v, (Closure, BoundMethod, FuncV)):
             f = fresh(Fn, 'clos')
             r = fresh(RealS, 'r')
             st2 = st.copy(); st2.pc = []
-            outs = self.call_value(v, [Sc(r)], {}, st2, node=None)
-            outs = [o for o in outs if o.kind != 'raise']
-            if len(outs) != 1 or outs[0].state.pc:
-                # more than one path: build an If-chain
-                body = None
-                for o in reversed(outs):
-                    val = self.as_real(o.value)
-                    cond = z3.And(*o.state.pc) if o.state.pc else z3.BoolVal(True)
-                    body = val if body is None else z3.If(cond, val, body)
-            else:
-                body = self.as_real(outs[0].value)
+            saved_r, saved_t = self._raises, self.track_raises
+            self._raises = []; self.track_raises = False
+            try:
+                outs = self.call_value(v, [Sc(r, 'float')], {}, st2, node=None)
+            finally:
+                self._raises, self.track_raises = saved_r, saved_t
+            body = None
+            for val, s_o in reversed(outs):
+                val = self.as_real(self.deref(val, s_o))
+                cond = z3.And(*s_o.pc) if s_o.pc else z3.BoolVal(True)
+                body = val if body is None else z3.If(cond, val, body)
+            if body is None: raise Unsupported('callable with no normal path')
             self.axioms.append(z3.ForAll([r], app(f, r) == body, patterns=[app(f, r)]))
             # the closure raises exactly when one of the applications inside it raises
             rs = _collect_apps(body)
             cond = z3.Or(*[raises(g, a) for g, a in rs]) if rs else z3.BoolVal(False)
             self.axioms.append(z3.ForAll([r], raises(f, r) == cond, patterns=[raises(f, r)]))
+            if rec is not None:
+                self._fn_cache[key] = f
+                # analytic derivative offered by the object?
+                for attr, hasf, getf in (('deriv', has_deriv, dfn), ('deriv2', has_deriv2, d2fn)):
+                    if attr in rec.fields or rec.module.find_method(rec.cls, attr) is not None:
+                        self.axioms.append(hasf(f))
+                        target = rec.fields[attr] if attr in rec.fields else BoundMethod(ref, attr)
+                        self.axioms.append(getf(f) == self.as_fn(target, st))
+                    else:
+                        self.axioms.append(z3.Not(hasf(f)))
             return f
         raise Unsupported('not a callable: %r' % (v,))
 
@@ -491,6 +528,7 @@ class ExprMixin(object):
             if fi.is_property: return self.call_function(fi, [recv], {}, st, self_cls=(r.module, r.cls), node=node)
             return [(BoundMethod(recv, name), st)]
         if isinstance(r, Obj):
+            self.assume_invariant(r, st)
             fty = self.reg.field_type(r.cls, name)
             if fty is not None:
                 return [(self.read_field(r, name, fty, st), st)]
@@ -506,9 +544,20 @@ class ExprMixin(object):
             if fi is not None: return [(Closure(fi.node, fi.module, 0, cls=r.name, qual=fi.qualname), st)]
             a = r.module.class_attr(r.name, name)
             if a is not None: return self.ev(a, st)
+        if isinstance(r, Closure) and name == '__get__':
+            return [(BoundMethod(recv, '__get__'), st)]
         if isinstance(r, Closure) or isinstance(r, FuncV):
             raise Unsupported('attribute %s of a function object' % name)
         raise Unsupported('attribute %s of %r' % (name, r))
+
+    def assume_invariant(self, o, st):
+        d = self.reg.classes.get(o.cls)
+        if d is None or d.invariant is None: return
+        key = (o.cls, o.z.get_id())
+        seen = st.__dict__.setdefault('inv_seen', set())
+        if key in seen: return
+        st.inv_seen = set(seen) | {key}
+        st.pc += d.invariant(o.z)
 
     def read_field(self, obj, name, fty, st):
         if fty.kind == 'Opt':
@@ -1239,6 +1288,8 @@ class CallMixin(object):
     def call_method(self, recv, name, args, kw, st, node):
         r = self.deref(recv, st)
         d = [self.deref(a, st) for a in args]
+        if isinstance(r, Closure) and name == '__get__':
+            return [(Closure(r.node, r.module, r.depth, self_val=args[0], cls=r.cls, qual=r.qual), st)]
         if isinstance(r, DocObj):
             if name == 'write':
                 self.doc_append(recv, self.text_of(d[0], st), st); return [(NONE, st)]
@@ -1509,6 +1560,7 @@ class Executor(Exec, ExprMixin, StmtMixin, CallMixin):
         self._class_stack = [(self.module, self.fi.cls) if self.fi.cls else None]
         self._closure_frames = None
         self._handling = None
+        self._fn_cache = {}
         self.track_div = False
         self.loop_list_types = dict(getattr(self.contract, 'ghost', None) or {})
 
@@ -1520,6 +1572,8 @@ class Executor(Exec, ExprMixin, StmtMixin, CallMixin):
         if k == 'Opt':
             return Opt(z3.Const(nm + '?none', BoolS), self.make_input(nm, ty.args[0], st))
         if k == 'None': return NONE
+        if k == 'New':
+            return st.new_cell(Rec(ty.args[0], Module.get(self.reg.classes[ty.args[0]].file)))
         if k == 'Dict':
             kty, vty = ty.args
             return SymDict(z3.Const(nm + '.has', z3.ArraySort(kty.sort(), BoolS)), z3.Const(nm + '.get', z3.ArraySort(kty.sort(), vty.sort())), kty, vty)
@@ -1536,6 +1590,7 @@ class Executor(Exec, ExprMixin, StmtMixin, CallMixin):
         entry = st.copy()
         self.old_ns = NS(self, entry)
         st.pc += c.requires(NS(self, st))
+        if c.definitions: st.pc += c.definitions()
         self.entry_pc = list(st.pc)
         outs = self.block(fi.body, st) + self._raises
         n_normal = 0
@@ -1547,6 +1602,7 @@ class Executor(Exec, ExprMixin, StmtMixin, CallMixin):
                 if c.result is not None and c.result.kind != 'None':
                     vd = self.deref(val, o.state)
                     if c.result.kind == 'Real' and isinstance(vd, Sc): res_z = self.as_real(vd)
+                    elif c.result.kind == 'Fn': res_z = self.as_fn(val, o.state)
                     elif c.result.kind == 'Obj' and isinstance(vd, Rec): res_z = self.rec_to_obj(vd, o.state).z
                     else: res_z = unwrap(vd)
                 ns = NS(self, o.state, frame=o.state.frames[0])
